@@ -44,8 +44,10 @@ SETTING_VALUES = {
 
 
 class G:
-    def __init__(self, profile, flavour, seed, max_closed=None, cfg=None, qsids=(1, 2, 3, 4, 5)):
+    def __init__(self, profile, flavour, seed, max_closed=None, cfg=None, qsids=(1, 2, 3, 4, 5), chaos=None, chunk_seed=None):
         self.rng = random.Random(seed)
+        # probability that a step is drawn from the whole grammar instead of the inputs that fit the current state
+        self.chaos = chaos if chaos is not None else self.rng.choice([0.03, 0.08, 0.2])
         self.profile = profile
         self.flavour = flavour
         roles = ['c', 's'] if profile == 'pair' else [profile]
@@ -53,11 +55,14 @@ class G:
         full = {'vi': True, 'ni': True, 'vo': True, 'no': True, 'enc': False}
         self.meta = {'roles': roles, 'qsids': list(qsids), 'max_closed': max_closed if max_closed is not None else 65536,
                      'cfg': {'c': dict(full, **cfg.get('c', {})), 's': dict(full, **cfg.get('s', {}))}, 'setup': []}
-        self.sess = driver.Session(dict(self.meta, max_closed=max_closed))
+        # chunk_seed: every receive_data() input is fed in seeded random pieces (C21); not part of the meta TLC sees
+        self.sess = driver.Session(dict(self.meta, max_closed=max_closed, chunk_seed=chunk_seed))
+        self.chunk_seed = chunk_seed
         self.cat = replay.load_catalogue()
         self.steps = []
         self.pair = profile == 'pair'
         self.adv_next = {'c': 2, 's': 1}       # next stream id the harness peer would open towards x
+        self.lost = False
         self.unacked = {'c': {}, 's': {}}      # bytes received and not yet acknowledged, per stream (an input heuristic only)
 
     # ------------------------------------------------------------ plumbing
@@ -152,7 +157,7 @@ class G:
         ex = r.choice([[], [True], [False]])
         return [w, dep, ex]
 
-    def gen_call(self, x):
+    def wild_call(self, x):
         r = self.rng
         f = self.flavour
         z = self.z(x)
@@ -286,7 +291,7 @@ class G:
             return r.choice(RESP_BAD + REQ_OK + TRL)
         return r.choice(TRL) if p < 0.75 else r.choice(TRL_BAD + RESP_OK + INFO)
 
-    def gen_frame(self, x):
+    def wild_frame(self, x):
         r = self.rng
         f = self.flavour
         z = self.z(x)
@@ -391,6 +396,222 @@ class G:
             return {'t': 'CONT', 'sid': max(1, self.pick_sid(x, kind='frame'))}
         return {'t': 'UNKNOWN', 'sid': r.choice([0, 1, 3])}
 
+
+    # ------------------------------------------------------------ inputs that fit the current state (most steps)
+    SEND_OK = ('OPEN', 'HALF_CLOSED_REMOTE')
+    RECV_OK = ('OPEN', 'HALF_CLOSED_LOCAL')
+
+    def valid_set_pairs(self, x, inbound):
+        r = self.rng
+        f = self.flavour
+        ids = [4, 4, 3, 5, 1, 6, 2, 8, 9] if f != 'flow' else [4, 4, 4, 3, 5]
+        out = {}
+        for _ in range(r.choice([1, 1, 1, 2, 3])):
+            i = r.choice(ids)
+            if i == 4:
+                v = r.choice([0, 1, 5, 10, 20, 100, 1000, 20000, 65535, 65536, 1 << 20, 2147483647])
+            elif i == 3:
+                v = r.choice([0, 1, 2, 3, 5, 100])
+            elif i == 5:
+                v = r.choice([16384, 16385, 20000, 70000, 16777215])
+            elif i == 1:
+                v = r.choice([0, 100, 4096, 65536])
+            elif i == 6:
+                v = r.choice([100, 200, 65536, 1 << 20])
+            elif i == 2:
+                v = 0 if (inbound and x == 'c') or (not inbound and x == 's') else r.choice([0, 1])
+            elif i == 8:
+                v = r.choice([0, 1])
+            else:
+                v = r.choice([0, 7])
+            out[i] = v
+        return [[i, v] for i, v in out.items()]
+
+    def gen_call(self, x):
+        r = self.rng
+        if r.random() < self.chaos:
+            return self.wild_call(x)
+        f = self.flavour
+        conn = self.conn(x)
+        ss = self.streams(x)
+        opts = []            # (weight, thunk)
+        W = {'flow': dict(data=8, ack=8, inc=3, set=2), 'settings': dict(set=8), 'life': dict(new=6, end=3, rst=2, count=2),
+             'push': dict(push=10, rst=2, set=1.5), 'headers': dict(new=6, resp=6, trl=4, push=3),
+             'close': dict(close=1), 'misc': dict(ping=5, prio=6, alt=6)}.get(f, {})
+
+        def w(k, base):
+            return base * W.get(k, 1)
+        sendable = [t for t in ss if t['st'] in self.SEND_OK and t['hs'] and not t['ts']]
+        live = [t for t in ss if t['st'] != 'CLOSED']
+        if x == 'c':
+            def new():
+                try:
+                    sid = conn.get_next_available_stream_id()
+                except Exception:
+                    sid = 1
+                name = r.choice(REQ_OK + REQ_OUT_REPAIRABLE)
+                return {'op': 'hdr', 'sid': sid, 'h': name, 'es': r.random() < 0.4,
+                        'pr': [] if r.random() < 0.85 else [[r.randrange(1, 257)], r.choice([[], [0], [sid + 2]]), r.choice([[], [True]])]}
+            if len(live) < 6:
+                opts.append((w('new', 6 if len(live) < 3 else 2), new))
+        else:
+            need = [t for t in ss if t['st'] in self.SEND_OK and t['hr'] and not t['hs']] + \
+                   [t for t in ss if t['st'] == 'RESERVED_LOCAL']
+            if need:
+                def resp():
+                    t = r.choice(need)
+                    if r.random() < 0.2 and t['st'] != 'RESERVED_LOCAL':
+                        return {'op': 'hdr', 'sid': t['sid'], 'h': r.choice(INFO), 'es': False, 'pr': []}
+                    return {'op': 'hdr', 'sid': t['sid'], 'h': r.choice(RESP_OK + RESP_OUT_REPAIRABLE), 'es': r.random() < 0.3, 'pr': []}
+                opts.append((w('resp', 7), resp))
+            parents = [t for t in ss if t['st'] in self.SEND_OK and t['sid'] % 2 == 1]
+            if parents and getattr(conn.remote_settings, 'enable_push', 0) == 1:
+                def push():
+                    z = self.z(x)
+                    hi = z.get('hiOut', 0) or 0
+                    return {'op': 'push', 'sid': r.choice(parents)['sid'], 'pid': hi + 2, 'h': r.choice(REQ_OK)}
+                opts.append((w('push', 2), push))
+            altable = [t for t in ss if t['hr'] and not t['hs'] and t['st'] in self.SEND_OK]
+
+            def alt():
+                if altable and r.random() < 0.5:
+                    return {'op': 'alt', 'fld': 'h2=":8000"', 'org': [], 'sid': [r.choice(altable)['sid']]}
+                return {'op': 'alt', 'fld': 'h2=":443"', 'org': ['a.example'], 'sid': []}
+            opts.append((w('alt', 0.7), alt))
+        if sendable:
+            def data():
+                t = r.choice(sendable)
+                try:
+                    lw = conn.local_flow_control_window(t['sid'])
+                except Exception:
+                    lw = 0
+                pad = r.choice([-1, -1, -1, 0, 3, 255]) if r.random() < 0.3 else -1
+                extra = (pad + 1) if pad >= 0 else 0
+                lim = min(lw, conn.max_outbound_frame_size) - extra
+                if lim <= 0:
+                    n, pad = (0, -1) if lw >= 0 else (0, -1)
+                elif r.random() < 0.3:
+                    n = lim
+                else:
+                    n = min(lim, r.choice([1, 2, 3, 5, 10, 100, 1000, 16384, r.randrange(1, 70)]))
+                return {'op': 'data', 'sid': t['sid'], 'n': max(n, 0), 'tag': r.choice('AB'), 'es': r.random() < 0.15, 'pad': pad}
+            opts.append((w('data', 6), data))
+            opts.append((w('trl', 1), lambda: {'op': 'hdr', 'sid': r.choice(sendable)['sid'], 'h': r.choice(TRL), 'es': True, 'pr': []}))
+            opts.append((w('end', 1.5), lambda: {'op': 'end', 'sid': r.choice(sendable)['sid']}))
+        if live:
+            opts.append((w('rst', 1), lambda: {'op': 'rst', 'sid': r.choice(live)['sid'], 'code': r.choice([0, 2, 5, 8])}))
+            incable = [t for t in live if t['st'] in ('OPEN', 'HALF_CLOSED_LOCAL', 'RESERVED_REMOTE')]
+            if incable:
+                opts.append((w('inc', 1), lambda: {'op': 'inc', 'n': r.choice([1, 5, 100, 4000, 65535]), 'sid': [r.choice(incable)['sid']]}))
+        opts.append((w('inc', 0.7), lambda: {'op': 'inc', 'n': r.choice([1, 5, 100, 4000, 65535]), 'sid': []}))
+        ua = [sid for sid, v in self.unacked[x].items() if v > 0]
+        if ua:
+            def ack():
+                sid = r.choice(ua)
+                tot = self.unacked[x][sid]
+                n = tot if r.random() < 0.6 else r.randrange(0, tot + 1)
+                self.unacked[x][sid] -= n
+                return {'op': 'ack', 'n': n, 'sid': sid}
+            opts.append((w('ack', 5), ack))
+        opts.append((w('set', 1.2), lambda: {'op': 'set', 's': self.valid_set_pairs(x, False)}))
+        opts.append((w('ping', 0.8), lambda: {'op': 'ping', 'tag': r.choice('ABZ'), 'n': 8}))
+        if x == 'c':
+            opts.append((w('prio', 0.6), lambda: {'op': 'prio', 'sid': r.choice([t['sid'] for t in ss] + [1, 3, 7]),
+                                                  'w': r.choice([[], [1], [256], [r.randrange(1, 257)]]),
+                                                  'dep': r.choice([[], [0], [11]]), 'excl': r.choice([[], [True], [False]])}))
+        opts.append((w('count', 0.5), lambda: {'op': r.choice(['oin', 'oout'])}))
+        if 'close' in W:
+            opts.append((0.3, lambda: {'op': 'close', 'code': r.choice([0, 2]), 'last': r.choice([[], [0]]), 'tag': r.choice([[], ['A']])}))
+        return r.choices([o[1] for o in opts], [o[0] for o in opts])[0]()
+
+    def gen_frame(self, x):
+        r = self.rng
+        if r.random() < self.chaos:
+            return self.wild_frame(x)
+        f = self.flavour
+        conn = self.conn(x)
+        ss = self.streams(x)
+        z = self.z(x)
+        opts = []
+        W = {'flow': dict(data=8, wu=4, set=2, ack=2), 'settings': dict(set=8, ack=6), 'life': dict(new=6, rst=3, trl=2),
+             'push': dict(pp=10, resp=3, rst=2, set=1.5), 'headers': dict(new=6, resp=6, trl=4, pp=3),
+             'close': dict(goaway=1), 'misc': dict(ping=5, prio=6, alt=6)}.get(f, {})
+
+        def w(k, base):
+            return base * W.get(k, 1)
+        live = [t for t in ss if t['st'] != 'CLOSED']
+        recvable = [t for t in ss if t['st'] in self.RECV_OK and t['hr'] and not t['tr']]
+        if x == 's':
+            def new():
+                hi = z.get('hiIn', 0) or 0
+                sid = hi + 2 if hi % 2 == 1 else hi + 1
+                fr = {'t': 'HEADERS', 'sid': sid, 'es': r.random() < 0.4, 'h': r.choice(REQ_OK), 'pr': [], 'blk': 'ok'}
+                if r.random() < 0.15:
+                    fr['pr'] = [r.randrange(1, 257), r.choice([0, sid + 2, 1]) if sid != 1 else 0, r.random() < 0.5]
+                return fr
+            if len(live) < 6:
+                opts.append((w('new', 6 if len(live) < 3 else 2), new))
+        else:
+            need = [t for t in ss if t['cl'] == 'T' and t['st'] in self.RECV_OK + ('RESERVED_REMOTE',) and not t['hr']]
+            if need:
+                def resp():
+                    t = r.choice(need)
+                    if r.random() < 0.2 and t['st'] != 'RESERVED_REMOTE':
+                        return {'t': 'HEADERS', 'sid': t['sid'], 'es': False, 'h': r.choice(INFO), 'pr': [], 'blk': 'ok'}
+                    return {'t': 'HEADERS', 'sid': t['sid'], 'es': r.random() < 0.3, 'h': r.choice(RESP_OK), 'pr': [], 'blk': 'ok'}
+                opts.append((w('resp', 7), resp))
+            parents = [t for t in ss if t['st'] in self.RECV_OK and t['sid'] % 2 == 1]
+            if parents and getattr(conn.local_settings, 'enable_push', 0) == 1:
+                def pp():
+                    hi = z.get('hiIn', 0) or 0
+                    return {'t': 'PP', 'sid': r.choice(parents)['sid'], 'pid': hi + 2, 'h': r.choice(REQ_OK), 'blk': 'ok'}
+                opts.append((w('pp', 2), pp))
+            altable = [t for t in ss if t['cl'] == 'T' and not t['hr'] and t['st'] != 'CLOSED']
+
+            def alt():
+                if altable and r.random() < 0.5:
+                    return {'t': 'ALT', 'sid': r.choice(altable)['sid'], 'org': '', 'fld': 'h2=":8"'}
+                return {'t': 'ALT', 'sid': 0, 'org': 'o.example', 'fld': 'h2=":443"'}
+            opts.append((w('alt', 0.7), alt))
+        if recvable:
+            def data():
+                t = r.choice(recvable)
+                try:
+                    rw = conn.remote_flow_control_window(t['sid'])
+                except Exception:
+                    rw = 0
+                pad = r.choice([-1, -1, 0, 3, 255]) if r.random() < 0.3 else -1
+                extra = (pad + 1) if pad >= 0 else 0
+                lim = min(rw, conn.max_inbound_frame_size) - extra
+                if lim < 0:
+                    n, pad, extra = 0, -1, 0
+                    if rw < 0:
+                        return {'t': 'PING', 'ack': False, 'tag': 'A'}
+                elif r.random() < 0.3:
+                    n = lim
+                else:
+                    n = min(lim, r.choice([0, 1, 2, 3, 4, 10, 100, 1000, 16384, r.randrange(0, 70)]))
+                self.unacked[x][t['sid']] = self.unacked[x].get(t['sid'], 0) + n + extra
+                return {'t': 'DATA', 'sid': t['sid'], 'es': r.random() < 0.15, 'n': n, 'tag': 'B', 'pad': pad}
+            opts.append((w('data', 6), data))
+            opts.append((w('trl', 1), lambda: {'t': 'HEADERS', 'sid': r.choice(recvable)['sid'], 'es': True, 'h': r.choice(TRL),
+                                               'pr': [], 'blk': 'ok'}))
+        if live:
+            opts.append((w('rst', 1), lambda: {'t': 'RST', 'sid': r.choice(live)['sid'], 'code': r.choice([0, 2, 5, 8])}))
+            opts.append((w('wu', 1.5), lambda: {'t': 'WU', 'sid': r.choice(live)['sid'], 'inc': r.choice([1, 5, 100, 4000, 65535])}))
+        opts.append((w('wu', 1), lambda: {'t': 'WU', 'sid': 0, 'inc': r.choice([1, 5, 100, 4000, 65535])}))
+        opts.append((w('set', 1.2), lambda: {'t': 'SET', 'ack': False, 's': self.valid_set_pairs(x, True)}))
+        pending = any(isinstance(e, list) and len(e[1]) > 1 for e in (z.get('ls') or []))
+        if pending:
+            opts.append((w('ack', 2), lambda: {'t': 'SET', 'ack': True, 's': []}))
+        opts.append((w('ping', 0.8), lambda: {'t': 'PING', 'ack': r.random() < 0.3, 'tag': r.choice('ABZ')}))
+        opts.append((w('prio', 0.6), lambda: {'t': 'PRIO', 'sid': r.choice([t['sid'] for t in ss] + [1, 3, 9]), 'w': r.randrange(1, 257),
+                                              'dep': r.choice([0, 11, 13]), 'excl': r.random() < 0.5}))
+        opts.append((0.3, lambda: {'t': 'UNKNOWN', 'sid': r.choice([0, 1, 3])}))
+        if 'goaway' in W:
+            opts.append((0.3, lambda: {'t': 'GOAWAY', 'last': r.choice([0, 1, 7]), 'code': r.choice([0, 2]), 'tag': r.choice(['-', 'A'])}))
+        return r.choices([o[1] for o in opts], [o[0] for o in opts])[0]()
+
     # ------------------------------------------------------------ one trace
     def run(self, length):
         r = self.rng
@@ -409,9 +630,14 @@ class G:
                     self.call(x, self.gen_call(x))
                 else:
                     k = 1 if r.random() < 0.8 else r.choice([2, 3])
-                    obs = self.recv(x, [self.gen_frame(x) for _ in range(k)])
-                    if k > 1 and obs['r']['c'] != 'ok':
-                        break      # the harness peer has HPACK-encoded blocks the code never decoded: its context is lost
+                    fs = [self.gen_frame(x) for _ in range(k)]
+                    if self.lost:
+                        # the code stopped decoding at a connection error while the harness peer's HPACK encoder went on:
+                        # what a later block decodes to is unknown, so no block whose verdict depends on its content
+                        fs = [dict(fr, blk='ok') if fr.get('blk') == 'big' else fr for fr in fs]
+                    obs = self.recv(x, fs)
+                    if obs['r']['c'] != 'ok':
+                        self.lost = True
             if self.closed_long_enough():
                 break
         return self.steps
@@ -426,7 +652,8 @@ class G:
         return self._after_close > 6
 
 
-def trace(profile, flavour, seed, length, max_closed=None, cfg=None):
-    g = G(profile, flavour, seed, max_closed=max_closed, cfg=cfg)
+def trace(profile, flavour, seed, length, max_closed=None, cfg=None, chaos=None, chunk_seed=None):
+    g = G(profile, flavour, seed, max_closed=max_closed, cfg=cfg, chaos=chaos, chunk_seed=chunk_seed)
     steps = g.run(length)
-    return {'id': '%s/%s/%d' % (profile, flavour, seed), 'meta': g.meta, 'steps': steps}
+    return {'id': '%s/%s/%d%s' % (profile, flavour, seed, '' if chunk_seed is None else '/chunked'), 'meta': g.meta, 'steps': steps,
+            'chunk_seed': chunk_seed}
